@@ -110,10 +110,16 @@ class EventDispatcher:
             self._event_queue.append((event_name, args, kwargs))
             return
 
-        # Existance of the referents shall be guaranteed by the
-        # automatic cleanup
+        # Iterate on a copy, as callbacks may add or remove handlers.
+        # A handler from the copy may have been collected in the
+        # meanwhile (e.g. a previous callback dropped its last
+        # reference): in that case it is no longer registered, skip it
         for handler_ref, method_ref in set(self._events[event_name]):
-            method_ref(handler_ref(), *args, **kwargs)
+            handler = handler_ref()
+            if handler is None:
+                continue
+
+            method_ref(handler, *args, **kwargs)
 
     @property
     def dispatch_enabled(self) -> bool:
